@@ -57,6 +57,13 @@ func wgapiReplay(args []string) error {
 			return n
 		}
 		results := []map[string]any{}
+		// condition lists handed to AddEdge: the caller keeps them (one slice per distinct list, re-used like a constant would be,
+		// with spare capacity behind the elements) and looks at them again after every call
+		type callerSlice struct {
+			s    []string
+			snap []string
+		}
+		callerSlices := map[string]*callerSlice{}
 		for _, st := range inp.Steps {
 			ret := ""
 			func() {
@@ -71,12 +78,23 @@ func wgapiReplay(args []string) error {
 				case "GetOrAddNode":
 					wg.GetOrAddNode(str(st.Args[0]), str(st.Args[0]), nodeTypes[str(st.Args[1])])
 				case "AddEdge":
-					conds := []string{}
-					if l, ok := st.Args[4].([]any); ok {
-						for _, c := range l {
-							conds = append(conds, str(c))
+					key := fmt.Sprint(st.Args[4])
+					cs := callerSlices[key]
+					if cs == nil {
+						full := make([]string, 0, 8)
+						if l, ok := st.Args[4].([]any); ok {
+							for _, c := range l {
+								full = append(full, str(c))
+							}
 						}
+						n := len(full)
+						for len(full) < cap(full) {
+							full = append(full, "~spare~")
+						}
+						cs = &callerSlice{s: full[:n], snap: append([]string{}, full...)}
+						callerSlices[key] = cs
 					}
+					conds := cs.s
 					wg.AddEdge(str(st.Args[0]), str(st.Args[1]), kinds[str(st.Args[2])], str(st.Args[3]), conds)
 				case "UpsertEdge":
 					if err := wg.UpsertEdge(node(str(st.Args[0])), node(str(st.Args[1])), kinds[str(st.Args[2])], str(st.Args[3]), str(st.Args[4])); err != nil {
@@ -115,7 +133,14 @@ func wgapiReplay(args []string) error {
 				}
 				return edges[i][1].(int) < edges[j][1].(int)
 			})
-			results = append(results, map[string]any{"ret": ret, "nodes": nodes, "edges": edges})
+			written := false
+			for _, cs := range callerSlices {
+				full := cs.s[:cap(cs.s)]
+				for i := range full {
+					written = written || full[i] != cs.snap[i]
+				}
+			}
+			results = append(results, map[string]any{"ret": ret, "nodes": nodes, "edges": edges, "caller_slice_written": written})
 		}
 		return w.write(map[string]any{"id": inp.ID, "steps": results})
 	})
